@@ -217,13 +217,18 @@ def check_func(c):
     cheb = np.polynomial.chebyshev
     cfs = []
     for k in range(d):
-        if c['kind'] == 'pure':
+        if c['kind'] == 'crafted':      # the location of the maximum modulus is sensitive to the size of the constant term
+            v = np.array(c['vec'], dtype=float)
+        elif c['kind'] == 'pure':
             v = np.zeros(n)
             v[c['js'][k]] = 1.0 + 0.5 * k
         else:
             v = space.core('gen', 1, n, 1, k, seed, tag=91 + c.get('tag', 0))[0, :, 0]
         cfs.append(v)
     A = [v.reshape(1, n, 1).copy() for v in cfs]
+    if c.get('shared'):             # A = [G] * d: one ndarray object at every position
+        cfs = [cfs[0]] * d
+        A = [A[0]] * d
     Ab = ref.core_bytes(A)
     best = 1.0
     for v in cfs:
@@ -311,4 +316,9 @@ def strata(tier, seed):
                 fs.append(dict(n=n, d=d, kind='pure', js=list(js), ks=list(range(1, 11)), seed=seed))
             for tag in range(3 if tier == 'quick' else 8):
                 fs.append(dict(n=n, d=d, kind='gen', tag=tag, ks=list(range(1, 11)), seed=seed))
+                fs.append(dict(n=n, d=d, kind='gen', tag=tag, ks=[1, 3, 10], seed=seed, shared=True))
+    for vec in ([-0.3, 1.0, 0.5], [0.3, 1.0, -0.5], [-0.6, 0.5, 0.5, 0.2], [0.45, -1.0, 0.4], [-0.2, 0.0, 1.0], [0.7, 1.0]):
+        for d in (2, 3, 4):
+            for shared in (False, True):
+                fs.append(dict(n=len(vec), d=d, kind='crafted', vec=vec, ks=[1, 2, 5], seed=seed, shared=shared))
     yield Stratum('functional optimum search (rank 1)', fs, 'func', size=len(fs), chunk=8, bounds={'n': [2, 5], 'k': [1, 10]})
